@@ -176,7 +176,9 @@ def _leaf(r, pool, ids, rel, opts):
         return p['cls'], p['inst']
 
     if vt == 'TEXT':
-        it = sr.TextContentItem(name=name, value=f'text {spec["id"]}', relationship_type=rel)
+        # text values with significant white space (leading blanks, several lines): a parser must not tidy them up
+        tv = {1: f'   indented text {spec["id"]}', 2: f'line one\r\nline two {spec["id"]}'}.get(spec['id'] % 4, f'text {spec["id"]}')
+        it = sr.TextContentItem(name=name, value=tv, relationship_type=rel)
     elif vt == 'CODE':
         it = sr.CodeContentItem(name=name, value=code_of(codes.SCT.Liver if r.random() < 0.5 else codes.SCT.Kidney, 'value'),
                                 relationship_type=rel)
